@@ -1,0 +1,41 @@
+//go:build verif
+
+package gate
+
+import (
+	"context"
+
+	"connectrpc.com/connect"
+
+	pb "go.minekube.com/gate/pkg/internal/api/gen/minekube/gate/v1"
+)
+
+// Verification hooks for property C35 (live config through the API handler). Thin forwarding only:
+// the request/response types live in an internal package the harness module cannot import.
+
+// C35ApplyConfig forwards to ConfigHandlerImpl.ApplyConfig. Exactly one of configPayload / mergePatch
+// should be non-nil (both nil sends a request without input). It returns the response version and
+// "ok", or the connect error code of the returned error.
+func C35ApplyConfig(h *ConfigHandlerImpl, configPayload, mergePatch *string, ifMatch string, persist bool) (string, string) {
+	req := &pb.ApplyConfigRequest{IfMatch: ifMatch, Persist: persist}
+	switch {
+	case configPayload != nil:
+		req.Input = &pb.ApplyConfigRequest_Config{Config: *configPayload}
+	case mergePatch != nil:
+		req.Input = &pb.ApplyConfigRequest_MergePatch{MergePatch: *mergePatch}
+	}
+	resp, err := h.ApplyConfig(context.Background(), req)
+	if err != nil {
+		return "", connect.CodeOf(err).String()
+	}
+	return resp.GetVersion(), "ok"
+}
+
+// C35GetConfig forwards to ConfigHandlerImpl.GetConfig.
+func C35GetConfig(h *ConfigHandlerImpl) (payload, version string, err error) {
+	resp, err := h.GetConfig(context.Background(), &pb.GetConfigRequest{})
+	if err != nil {
+		return "", "", err
+	}
+	return resp.GetPayload(), resp.GetVersion(), nil
+}
